@@ -417,6 +417,14 @@ def power_case(rnd, nmax, present=()):
     return dict(kind="power", n=n, dt=dt, M=M.astype(getattr(np, dt)), lam=lam, sa=sa, how=how, kwargs=kw, wrap="Dense", seed=0, cplx=cplx, f32=f32, scale=sc_)
 
 
+def big_sizes(rnd, ctx):
+    """sizes that straddle constants a Krylov routine may hide (100, 128, 256): a few per quick run, more in the thorough tier"""
+    out = [rnd.randint(101, 112), rnd.randint(126, 140), rnd.randint(200, 262)]
+    if ctx.tier == "thorough":
+        out += [rnd.randint(101, 300) for _ in range(9)]
+    return out
+
+
 def rayleigh_all_positive(M, v0, steps=1200):
     """plain-numpy simulation of the normalised power method: are all quotients v.(M v) positive? (input-only decision
     used to stay out of the region spoiled by power_iteration_negative_eig)"""
@@ -768,6 +776,43 @@ def run(ctx):
             except Exception as e:
                 mism.append(dict(oracle_fail=True, case=case_js, got=f"eigmax/eigmin: {type(e).__name__}: {str(e)[:160]}", failed_clauses=["raised"]))
         meta.append(dict(case=case_js, bad=bad, got=dict(w=np.asarray(w).tolist())))
+
+    # ---------------- large self-adjoint operators under Lanczos: sizes and iteration counts beyond 100, 128, 256 (windows, periods, block sizes)
+    g_big = L.nprng(rnd)
+    for n in big_sizes(rnd, ctx):
+        lam = np.sort(g_big.uniform(1.0, 3.0, n)) * np.where(g_big.random(n) < 0.4, -1.0, 1.0)
+        lam[-1] *= 1.3
+        Q = L.rand_unitary(g_big, n, False)
+        S = (Q * lam) @ Q.T
+        S = (S + S.T) / 2
+        import cola as _cola
+        from cola import ops as _ops
+        A = _cola.SelfAdjoint(_ops.Dense(S))
+        for k, which, mi in ((3, "LM", n), (n, rnd.choice(["LM", "SM"]), None), (rnd.randint(2, 6), "SM", n + 7)):
+            if "eigh_algebraic_not_magnitude" in avoid and not pinned_selection_ok(np.sort(lam), lam, k, which):
+                continue
+            alg = dict(cls="Lanczos", kwargs=({} if mi is None else dict(max_iters=mi)))
+            case_js = dict(kind="large", n=n, k=k, which=which, alg=alg, seed_note="S = Q diag(lam) Q^T, lam in +-[1,3]", lam=lam.tolist())
+            evals += 1
+            bump(hist, f"large:Lanczos:n>{100 if n <= 128 else (128 if n <= 256 else 256)}")
+            distinct.add(core.digest(dict(case_js, S=S[:3, :3].tolist())))
+            try:
+                w, V = run_eig(A, k, which, alg)
+            except Exception as e:
+                mism.append(dict(oracle_fail=True, case=case_js, got=f"{type(e).__name__}: {str(e)[:200]}", failed_clauses=["raised on an input the model accepts"]))
+                continue
+            bad, _ = check_property(S.astype(np.complex128), w, V, k, which, True, lam, 1e-7, check_sel=True)
+            # correspondence in floating point (too large for the rational model): oracle, order by magnitude, slice
+            from cola.linalg.decompositions.lanczos import lanczos_eigs
+            ow, oV, _ = lanczos_eigs(A, **make_alg(alg).__dict__)
+            ow, oV = np.asarray(ow), np.asarray(oV.to_dense())
+            if "eigh_algebraic_not_magnitude" not in present:
+                ix = np.argsort(np.abs(ow))
+                ow, oV = ow[ix], oV[:, ix]
+            sl_ = slice(len(ow) - k, None) if which == "LM" else slice(0, k)
+            dis = not (np.asarray(w).shape == ow[sl_].shape and np.allclose(w, ow[sl_], rtol=1e-12, atol=0) and np.allclose(V, oV[:, sl_], rtol=0, atol=1e-10))
+            if bad or dis:
+                mism.append(dict(oracle_fail=bool(bad), case=case_js, failed_clauses=bad, model_disagrees=dis, got=dict(w=np.asarray(w)[:6].tolist())))
 
     # ---------------- argument edge: k = -1 is refused, k = 0 / k > n follow Python slicing
     from cola import ops as _ops
